@@ -941,6 +941,7 @@ impl<K: EnrKey> Enr<K> {
 
     /// Compute the enr's signature with the given key.
     fn compute_signature(&self, signing_key: &K) -> Result<Vec<u8>, Error> {
+        check_signer_is_record_key(&self.content, signing_key)?;
         match self.id() {
             Some(ref id) if id.as_bytes() == ENR_VERSION => signing_key
                 .sign_v4(&self.rlp_content())
@@ -1235,6 +1236,21 @@ pub(crate) fn digest(b: &[u8]) -> [u8; 32] {
     let mut output = [0_u8; 32];
     output.copy_from_slice(&Keccak256::digest(b));
     output
+}
+
+/// A record must verify under the public key it carries. With key types that know several
+/// schemes (e.g. `CombinedKey`, where a valid "secp256k1" entry takes precedence over an
+/// "ed25519" one) another public-key entry in the content can shadow the signer's: refuse to
+/// sign such a record instead of returning one that does not verify.
+pub(crate) fn check_signer_is_record_key<K: EnrKey>(
+    content: &BTreeMap<Key, Bytes>,
+    signing_key: &K,
+) -> Result<(), Error> {
+    let record_key = K::enr_to_public(content).map_err(|_| Error::SigningError)?;
+    if record_key.encode().as_ref() != signing_key.public().encode().as_ref() {
+        return Err(Error::SigningError);
+    }
+    Ok(())
 }
 
 fn check_spec_reserved_keys(key: &[u8], mut value: &[u8]) -> Result<(), Error> {
